@@ -766,7 +766,7 @@ func lockMethod(c *Ctx, lt lockedType, fn *ssa.Function, entry string, calls map
 			if !ok {
 				continue
 			}
-			h := call.Call.StaticCallee()
+			h := ir.Callee(call.Call)
 			if h == nil || h == fn || h.Blocks == nil || h.Signature.Recv() == nil || !lt.isPtrTo(h.Signature.Recv().Type()) || len(call.Call.Args) == 0 || call.Call.Args[0] != ssa.Value(recv) {
 				continue
 			}
@@ -807,7 +807,7 @@ func lockMethod(c *Ctx, lt lockedType, fn *ssa.Function, entry string, calls map
 		held := strings.TrimSuffix(st.aux, "d")
 		deferred := strings.HasSuffix(st.aux, "d")
 		if call, ok := ins.(*ssa.Call); ok {
-			if h := call.Call.StaticCallee(); h != nil && h != fn && h.Signature.Recv() != nil && lt.isPtrTo(h.Signature.Recv().Type()) && len(call.Call.Args) > 0 && call.Call.Args[0] == ssa.Value(recv) {
+			if h := ir.Callee(call.Call); h != nil && h != fn && h.Signature.Recv() != nil && lt.isPtrTo(h.Signature.Recv().Type()) && len(call.Call.Args) > 0 && call.Call.Args[0] == ssa.Value(recv) {
 				if calls[h] == nil {
 					calls[h] = map[string]bool{}
 				}
